@@ -1487,7 +1487,7 @@ func handleClientMessage(c *webClient, m clientMessage) error {
 		if m.Id == "" {
 			return errEmptyId
 		}
-		if !slices.Contains(c.permissions, "present") {
+		if c.group == nil || !slices.Contains(c.permissions, "present") {
 			if m.Replace != "" {
 				delUpConn(c, m.Replace, c.id, true)
 			}
